@@ -521,13 +521,28 @@ func checkPermutationShape(p *core.Program, r *core.Report, ctx *circuitCtx, per
 	}
 }
 
+// returnsGlobalAddr: some return of fn yields the address of a package-level variable.
+func returnsGlobalAddr(fn *ssa.Function) bool {
+	for _, b := range fn.Blocks {
+		if len(b.Instrs) == 0 {
+			continue
+		}
+		if ret, ok := b.Instrs[len(b.Instrs)-1].(*ssa.Return); ok && len(ret.Results) == 1 {
+			if _, ok := ret.Results[0].(*ssa.Global); ok {
+				return true
+			}
+		}
+	}
+	return false
+}
+
 func checkConfigValues(p *core.Program, r *core.Report, perm *gadgetInfo, rfField, rpField string) {
 	// selector: in-repo function returning the address of a table depending on an int parameter
 	var sel *ssa.Function
 	for _, b := range perm.Fn.Blocks {
 		for _, in := range b.Instrs {
 			if c, ok := in.(*ssa.Call); ok {
-				if sc := c.Common().StaticCallee(); sc != nil && sc.Pkg == perm.Fn.Pkg && len(sc.Params) == 1 && sc.Blocks != nil {
+				if sc := c.Common().StaticCallee(); sc != nil && sc.Pkg == perm.Fn.Pkg && len(sc.Params) == 1 && sc.Blocks != nil && sc.Signature.Recv() == nil && returnsGlobalAddr(sc) {
 					sel = sc
 				}
 			}
